@@ -34,6 +34,19 @@ PIPELINES = {
         "drivers": [{"name": "all", "cmd": ["strings", "{out}", "{tier}"], "random": True}],
         "min_events": 500,
     },
+    "keys": {
+        "variants": ["ring", "awslc"],
+        "mc": [{"module": "MC_Keys", "workers": 4, "emits": False}],
+        "drivers": [{"name": "all", "cmd": ["keys", "{out}", "{tier}"], "chunk": 100000}],
+        "min_events": 200,
+    },
+    "pem": {
+        "variants": ["ring", "awslc"],
+        "thorough_only_variants": ["awslc"],
+        "mc": [{"module": "MC_Pem", "workers": 4, "emits": False}],
+        "drivers": [{"name": "all", "cmd": ["pem", "{out}", "{tier}"], "chunk": 100000, "require_cov": ["pemResidues=TRUE"]}],
+        "min_events": 300,
+    },
     # distinguished-name container: all edit histories of a fixed length + random long walks
     "dn": {
         "variants": ["ring"],
@@ -75,6 +88,12 @@ PROPS = {
     "C13": _p("model_checking", ["strings"], ["C13."],
               "every Unicode scalar value as a one-character string through every text constructor of the five types (run-length encoded verdicts, judged element by element in TLA+), every 16-bit unit and every 32-bit value < 0x120000 through the byte-level constructors, hand-built and random byte strings (odd lengths, lone/paired surrogates, > U+10FFFF), random multi-character strings with planted outsiders, placement of sampled accepted values in names / alternative names with decoding; distinct by event arguments",
               ops=["StringRuns", "StringBytes", "StringMulti", "StringPlace"], exhaustive=False),
+    "C11": _p("model_checking", ["keys"], ["C11."],
+              "key type (Ed25519, P-256, P-384, P-521, RSA-2048; 3072/4096 in thorough) x origin/format (OpenSSL PKCS#8, SEC1, PKCS#1; rcgen-generated PKCS#8 v1/v2) x 9 loading entry points x requested algorithm (none + every algorithm of the build, all misfits) x back end (ring, aws-lc-rs); every successful load signs, re-exports and re-loads; plus the algorithm table event; distinct by (key type, format, entry, requested algorithm, back end)",
+              ops=["KeyLoad", "AlgTable"], exhaustive=True),
+    "C14": _p("model_checking", ["pem"], ["C14."],
+              "certificate / CSR / CRL for common-name lengths 0..149 (every residue of the DER length modulo 48 is required by a coverage predicate evaluated by TLC) x algorithms (Ed25519 over the full span, P-256/P-384/RSA-2048 sampled, multi-kilobyte RSA certificates with 40 SANs), private and public key PEM per algorithm; distinct by (kind, algorithm, DER length)",
+              ops=["Pem"], exhaustive=False),
     "C20": _p("model_checking", ["dn"], ["C20."],
               "cases = every sequence of exactly MaxOps (4 quick / 5 thorough) push/remove operations over 3-4 attribute types x 2 values (MC_Names.Histories), each followed by equality probes against freshly built names (same enumeration, proper prefix, reversed, last value changed) and by issuing a certificate whose subject is decoded; plus random walks of length 200 over 10 types and 6 value kinds; distinct by (operation, arguments) event",
               ops=["DnPush", "DnRemove", "DnEq", "DnEncode"], exhaustive=False),
